@@ -41,7 +41,7 @@ ASSUMPTIONS = [
     "MPI is trusted: reliable, pairwise FIFO; MPI_Pack/MPI datatype layout of IndexPair is exercised, not modelled",
     "theorems assume at most one entry per global index and index set on a rank (NoDupGlobals); repeated globals are covered by unpack_spec (merge-join level) and the differential runs",
     "neighbour hints are symmetric and name at least one other rank on every rank, or are absent everywhere; every rank takes part in every rebuild",
-    "the model describes the tree with fixes/C04_localdest_index.patch and fixes/C04_oneset_receives_twoset.patch applied",
+    "the model describes the tree with fixes/C04_localdest_index.patch and fixes/C04_oneset_receives_twoset.patch applied (/repo commits aadf5bf, 6f17323)",
 ]
 TRUSTED = ["g++/libstdc++, ASan/UBSan, OpenMPI", "harness/mpi_c04.cc (generator, executor, set-definition oracle) + harness/pmpi_sched.cc",
            "Driver/C04.lean parsing/printing and the harness-protocol index-set bookkeeping"]
